@@ -241,6 +241,20 @@ pub fn enumerate(rep: &mut Report, prop: &str, hist_name: &str, db0: &Path, gid:
         let n: u64 = parts[1].parse().unwrap_or(0);
         let labels: Vec<&str> = parts.get(3).map(|s| s.split(',').collect()).unwrap_or_default();
         rep.add_count(&format!("ticks_{hist_name}_{idx}_{}", calls[idx].1.label()), n);
+        {
+            // run-length form of the tick labels of this call, for the evidence
+            let mut rl: Vec<String> = Vec::new();
+            let mut i = 0;
+            while i < labels.len() {
+                let mut j = i;
+                while j < labels.len() && labels[j] == labels[i] {
+                    j += 1;
+                }
+                rl.push(if j - i > 1 { format!("{}x{}", labels[i], j - i) } else { labels[i].to_string() });
+                i = j;
+            }
+            rep.extra.insert(format!("tick_labels_{hist_name}_{idx}_{}[{}]", calls[idx].1.label(), calls[idx].0), json!(rl.join(" ")));
+        }
         for k in 0..n {
             jobs.push((idx, k, labels.get(k as usize).unwrap_or(&"?").to_string()));
         }
@@ -612,6 +626,30 @@ pub fn check_c12(rep: &mut Report, thorough: bool) {
     if let Mdk::Sql(_, bf) = &b.mdk {
         let calls: Vec<(String, Call)> = vec![("own-rename-commit".into(), Call::MergePending), ("own".into(), Call::CreateMessage("from-b".into()))];
         enumerate(rep, "C12", "admin2", &bf.path, &w.gid, &b.keys, None, calls, None, thorough);
+    }
+    // H5: B sees the echo of its own (losing) commit first, then the winner: own-commit echo path, then rollback
+    if let Mdk::Sql(_, bf) = &b.mdk {
+        let calls: Vec<(String, Call)> = vec![
+            ("own-commit-echo".into(), Call::Process(ev("n.B.rename3"))),
+            ("commit-with-rollback".into(), Call::Process(ev("n.A.relays2"))),
+            ("application-after-rollback".into(), Call::Process(ev("n2.C.msg0"))),
+        ];
+        enumerate(rep, "C12", "own-commit-echo", &bf.path, &w.gid, &b.keys, None, calls, None, thorough);
+    }
+    // H5b: A sees the echo of its own Add commit, which nobody competes with (it must be applied for A to go on)
+    if let Mdk::Sql(_, af) = &a.mdk {
+        let calls: Vec<(String, Call)> = vec![("sole-own-commit-echo".into(), Call::Process(ev("n2.A.add1"))), ("own".into(), Call::CreateMessage("from-a-after-echo".into()))];
+        enumerate(rep, "C12", "sole-own-commit-echo", &af.path, &w.gid, &a.keys, None, calls, None, thorough);
+    }
+    // H6: C sees the echo of its own application message, then the commits
+    let c = &w.initial["C"];
+    if let Mdk::Sql(_, cf) = &c.mdk {
+        let calls: Vec<(String, Call)> = vec![
+            ("own-message-echo".into(), Call::Process(ev("n.C.msg0"))),
+            ("commit".into(), Call::Process(ev("n.A.relays2"))),
+            ("losing-commit".into(), Call::Process(ev("n.B.rename3"))),
+        ];
+        enumerate(rep, "C12", "own-message-echo", &cf.path, &w.gid, &c.keys, None, calls, None, thorough);
     }
     // a joiner: process and accept the welcome
     if let Some(d0) = w.prejoin.get("D") {
